@@ -1097,7 +1097,10 @@ sexp sexp_complex_expt (sexp ctx, sexp a, sexp b) {
   res = sexp_to_complex(ctx, a);
   res = sexp_complex_log(ctx, res);
   res = sexp_mul(ctx, b, res);
-  res = sexp_complex_exp(ctx, res);
+  if (!sexp_exceptionp(res)) {
+    res = sexp_to_complex(ctx, res);  /* the product is real when b is an exact zero */
+    res = sexp_complex_exp(ctx, res);
+  }
   sexp_gc_release1(ctx);
   return res;
 }
